@@ -179,6 +179,9 @@ def _build(desc, argmap, name):
                 u.facts.add(('encoded-by', id(a)))
                 if is_concrete(a):
                     u.facts.add(('encoded-in', concrete(a)))
+                if getattr(a, 'param_name', None):
+                    # the caller is itself being summarised: the fact is about *its* parameter
+                    u.facts.add(('encoded-by-param', a.param_name))
         return u
     if kind == 'list':
         t = set()
